@@ -205,7 +205,7 @@ func init() {
 			case 9, 10: // a comb: a spine left of the box with two or three teeth reaching into it, so that the outer ring is
 				// cut into several pieces; small holes inside the teeth (each must end up in the piece that contains it)
 				nt := 2 + c.rng.Intn(2)
-				bxl := 2 // the box's left side, between the spine (x <= 1) and the tooth ends
+				bxl := 2           // the box's left side, between the spine (x <= 1) and the tooth ends
 				var outer [][2]int // counter-clockwise: up the right side tooth by tooth, back down the spine
 				outer = append(outer, [2]int{0, 0}, [2]int{1, 0})
 				var holes [][][2]int
@@ -225,8 +225,9 @@ func init() {
 					}
 					outer = append(outer, [2]int{xe, y1}, [2]int{1, y1})
 					if c.rng.Intn(3) > 0 { // a hole in this tooth, inside the box, on the 1/60 lattice
-						hx, hy := (bxl*4+1+c.rng.Intn((xe-bxl)*4-3))*15, (y0*4+1+c.rng.Intn((y1-y0)*4-2))*15
-						h := [][2]int{{hx, hy}, {hx + 15, hy}, {hx + 15, hy + 15}, {hx, hy + 15}}
+						// half a grid unit wide, so that query points of the quarter-unit lattice fall strictly inside it
+						hx, hy := (bxl*4+1+c.rng.Intn((xe-bxl)*4-4))*15, (y0*4+1+c.rng.Intn((y1-y0)*4-3))*15
+						h := [][2]int{{hx, hy}, {hx + 30, hy}, {hx + 30, hy + 30}, {hx, hy + 30}}
 						if o > 0 {
 							h = reverse2(h)
 						}
@@ -244,6 +245,10 @@ func init() {
 				c16Smart(c, []string{"Polygon", "Geometry", "MultiPolygon"}[c.rng.Intn(3)], [4]int{bxl * S, -1 * S, 8 * S, (top + 1) * S}, [][][][2]int{poly}, o)
 			case 2: // polygon with an interior hole: a small square about the centre, kept only if it lies strictly inside
 				hole := [][2]int{{3, 3}, {3, 4}, {4, 4}, {4, 3}}
+				if c.rng.Intn(2) == 0 { // any unit square of the grid (its corners level with ring vertices on either side)
+					hx, hy := 1+c.rng.Intn(5), 1+c.rng.Intn(5)
+					hole = [][2]int{{hx, hy}, {hx, hy + 1}, {hx + 1, hy + 1}, {hx + 1, hy}}
+				}
 				if o < 0 {
 					hole = reverse2(hole)
 				}
